@@ -380,7 +380,7 @@ func init() {
 				sel := findSel(w.Label.Sel)
 				qs, rs := d.Stores(w.Label.Split)
 				ref := harness.Reference(d.Root, sel.Node, harness.RefOpts{Local: qs, Remote: rs, RemoteNeedsPath: true})
-				obs, _ := runExchangeMarked(vsched.Config{Prefix: w.Prefix}, d, sel, w.Label.Split)
+				obs, _ := runExchangeMarked(core.CfgFromReplay(raw), d, sel, w.Label.Split)
 				if v := c02SchedJudge(d, ref, *w.Label, obs); v != nil {
 					return v.Signature + ": " + v.What
 				}
